@@ -3541,6 +3541,10 @@ def operator_pow(a, b):
     ):
 
         def operator_pow_impl(a, b):
+            # a non-literal 2 must give the signed rho2/mag2/tau2 like the interpreter
+            # (for a space-like 4D vector tau is negative and tau2 is not tau**2)
+            if b == 2:
+                return numpy.square(a)
             return abs(a) ** b
 
         return operator_pow_impl
